@@ -596,6 +596,10 @@ func init() {
 	profiles["C17"] = &profile{
 		config: func(r *RNG, thorough bool) *RunConfig {
 			cfg := baseConfig("C17", r, thorough)
+			if rl := NewRNG(Mix(r.U64(), 0x6c6f7765)); rl.Bool(0.2) {
+				// peers files that spell some keys in lower case with a 0x prefix
+				cfg.LowerKeys = true
+			}
 			cfg.N0 = []int{2, 3, 4, 4, 5}[r.Intn(5)]
 			cfg.Stores = make([]string, cfg.N0)
 			for i := range cfg.Stores {
